@@ -1,29 +1,44 @@
 #!/bin/bash
-# usage: tools/confirm_seed.sh <Cxx> <k> [--tests]
-# Confirms a sub-agent's seeded defect against /repo HEAD in a scratch worktree:
-#   demo passes on the clean tree, fails with the patch; optionally the test suite passes with the patch.
-# Writes /tmp/wt/confirm/<Cxx>_<k>.json
+# usage: tools/confirm_seed.sh <Cxx> <k> [--tests] [srcdir]
+# Confirms a sub-agent's seeded defect against /repo HEAD in a scratch worktree (removed afterwards):
+#   demo passes on the clean tree, fails with the patch; with --tests the existing suite (baseline command) passes with the patch
+#   apart from the 4 tests that need network access (they fail on the unchanged tree too).
+# Writes <confirm dir>/<Cxx>_<k>.json
 set -u
-ID="$1"; K="$2"; TESTS="${3:-}"
-OUT=/tmp/wt/out/$ID
+ID="$1"; K="$2"; TESTS="${3:-}"; OUT="${4:-/tmp/wt/out/$ID}"
+CF=${CONFIRM_DIR:-/tmp/wt/confirm}
 W=/tmp/scratch_cf_${ID}_${K}_$$
-mkdir -p /tmp/wt/confirm
+mkdir -p "$CF"
 git -C /repo worktree add --detach "$W" HEAD >/dev/null 2>&1 || { echo "worktree failed"; exit 3; }
 cp "$OUT/demo_$K.py" "$W/demo_seed.py"
 cd "$W"
-OMP_NUM_THREADS=2 PYTHONPATH="$W" timeout 1200 /venv/bin/python demo_seed.py > /tmp/wt/confirm/${ID}_${K}.clean.log 2>&1; RC_CLEAN=$?
+HEADREV=$(git rev-parse --short HEAD)
+OMP_NUM_THREADS=2 PYTHONPATH="$W" timeout 3000 /venv/bin/python demo_seed.py > "$CF/${ID}_${K}.clean.log" 2>&1; RC_CLEAN=$?
 APPLY=ok
 git apply "$OUT/patch_$K.diff" 2>/dev/null || git apply --3way "$OUT/patch_$K.diff" 2>/dev/null || APPLY=fail
-OMP_NUM_THREADS=2 PYTHONPATH="$W" timeout 1200 /venv/bin/python demo_seed.py > /tmp/wt/confirm/${ID}_${K}.patched.log 2>&1; RC_PATCHED=$?
-RC_TESTS=-1; NPASS=0; NFAIL=0
+OMP_NUM_THREADS=2 PYTHONPATH="$W" timeout 3000 /venv/bin/python demo_seed.py > "$CF/${ID}_${K}.patched.log" 2>&1; RC_PATCHED=$?
+RC_TESTS=-1; UNEXP=-1; NPASS=-1
 if [ "$TESTS" = "--tests" ] && [ "$APPLY" = ok ]; then
   rm -f demo_seed.py
-  OMP_NUM_THREADS=2 PYTHONPATH="$W" timeout 5400 /venv/bin/python -m pytest -q -p no:cacheprovider --timeout=900 tests > /tmp/wt/confirm/${ID}_${K}.tests.log 2>&1; RC_TESTS=$?
-  NFAIL=$(grep -cE "^FAILED|^ERROR" /tmp/wt/confirm/${ID}_${K}.tests.log)
-  FAILED=$(grep -E "^FAILED|^ERROR" /tmp/wt/confirm/${ID}_${K}.tests.log | grep -vE "test_eda\[DPPEnv\]|test_eda\[MDPPEnv\]|test_am_policy\[dpp\]|test_am_policy\[mdpp\]" | wc -l)
-else
-  FAILED=-1
+  OMP_NUM_THREADS=2 PYTHONPATH="$W" timeout 14000 /venv/bin/python -m pytest -ra -q -p no:cacheprovider --timeout=6000 --continue-on-collection-errors --junitxml="$CF/${ID}_${K}.junit.xml" > "$CF/${ID}_${K}.tests.log" 2>&1; RC_TESTS=$?
+  read NPASS UNEXP <<<$(/venv/bin/python - "$CF/${ID}_${K}.junit.xml" <<'PY'
+import sys, xml.etree.ElementTree as ET
+KNOWN = {"test_eda[DPPEnv]", "test_eda[MDPPEnv]", "test_am_policy[dpp]", "test_am_policy[mdpp]"}
+try:
+    r = ET.parse(sys.argv[1]).getroot()
+except Exception:
+    print(-1, -1); sys.exit()
+np_, bad = 0, 0
+for tc in r.iter("testcase"):
+    st = [c.tag for c in tc if c.tag in ("failure", "error", "skipped")]
+    if not st:
+        np_ += 1
+    elif any(t in ("failure", "error") for t in st) and tc.get("name") not in KNOWN:
+        bad += 1
+print(np_, bad)
+PY
+)
 fi
 cd /
 git -C /repo worktree remove --force "$W"
-echo "{\"id\":\"$ID\",\"k\":$K,\"apply\":\"$APPLY\",\"demo_clean_rc\":$RC_CLEAN,\"demo_patched_rc\":$RC_PATCHED,\"tests_rc\":$RC_TESTS,\"unexpected_test_failures\":$FAILED}" | tee /tmp/wt/confirm/${ID}_${K}.json
+echo "{\"id\":\"$ID\",\"k\":$K,\"repo_head\":\"$HEADREV\",\"apply\":\"$APPLY\",\"demo_clean_rc\":$RC_CLEAN,\"demo_patched_rc\":$RC_PATCHED,\"tests_rc\":$RC_TESTS,\"tests_passed\":$NPASS,\"unexpected_test_failures\":$UNEXP}" | tee "$CF/${ID}_${K}.json"
